@@ -3,7 +3,10 @@
    _branch_exhaustive, _mincovers_from_floor, _enumerate_mincovers_below,
    _below_and_suff, _lm_tail, _mincovers_from_unfloor,
    _enumerate_mincovers_unfloor, _y_unfloor) over explicit finite sets of
-   lattice elements, with Python's [assert]s modelled as errors.
+   lattice elements, with Python's [assert]s modelled as errors.  The code
+   modelled is the one repaired by fixes/F2.patch (care_vars) and
+   fixes/F17.patch (leaf of _traverse_exhaustive; the unrepaired leaf is kept
+   in CoverEnumOldLeaf.v for the regression example).
 
    Model file: definitions only; proofs in CoverEnumProofs.v.
 
@@ -182,7 +185,11 @@ Fixpoint ccfr (fuel : nat) (X Y : list box) (pc ub : nat)
            let core_lb := indep_size pick (S (length x)) x y in
            let blb := (npc + core_lb)%nat in
            match x with
-           | [] => check (is_nil y) (check (Nat.eqb core_lb 0) (ok ([[]], blb)))
+           | [] =>
+               (* leaf, AS REPAIRED by fixes/F17.patch: accepted only if it
+                  is not more expensive than the upper bound *)
+               check (is_nil y) (check (Nat.eqb core_lb 0)
+                 (if (ub <? blb)%nat then ok ([], ub) else ok ([[]], blb)))
            | _ =>
                if (ub <? blb)%nat then ok ([], ub)
                else
